@@ -14,13 +14,20 @@ Init == \/ \E f \in Polys, g \in Polys :
               /\ (Code(f) * 31 + Code(g) * 17) % Stride = 0
               /\ cs = [kind |-> "polys", a |-> ToPoly(f), b |-> ToPoly(g), k |-> Alpha[((Code(f) + Code(g)) % 5) + 1],
                       da |-> (Code(f) % 3) + 1, db |-> IF Code(g) % 2 = 0 THEN 1 ELSE Alpha[(Code(g) % 3) + 3],
-                      npts |-> ((Code(f) + Code(g)) % 8) + 1]
+                      npts |-> ((Code(f) + Code(g)) % 8) + 1,
+                      \* position of the point x = 0 in the point set (0 = absent): every position of every set size occurs
+                      zx |-> (Code(f) * 7 + Code(g) * 3) % (((Code(f) + Code(g)) % 8) + 2)]
         \* longer dividends (5..13 coefficients) against every divisor x^a - b with a = 1..4, so that lengths that are and are
         \* not multiples of a, and more than two blocks of a coefficients, occur
         \/ \E n \in 5..13, sd \in 1..3, a \in 1..4, bsel \in 1..2 :
               cs = [kind |-> "polys", a |-> [i \in 1..n |-> Alpha[((i * sd + i * i) % 5) + 1]], b |-> <<Alpha[4], Alpha[2 + sd]>>,
                       k |-> Alpha[((n + a) % 5) + 1], da |-> a, db |-> IF bsel = 1 THEN 1 ELSE Alpha[3 + (n % 3)],
-                      npts |-> (n % 8) + 1]
+                      npts |-> (n % 8) + 1, zx |-> (n + a + sd) % ((n % 8) + 2)]
+        \* every point-set size 1..8 with the point x = 0 at every position (and absent)
+        \/ \E np \in 1..8, z \in 0..8 :
+              /\ z <= np
+              /\ cs = [kind |-> "polys", a |-> <<Alpha[4], Alpha[2], Alpha[5]>>, b |-> <<Alpha[3], Alpha[2]>>, k |-> Alpha[(np % 5) + 1],
+                       da |-> 1, db |-> 1, npts |-> np, zx |-> z]
         \/ \E len \in {1, 2, 3, 16, 1023, 1024, 1025, 2048}, zpos \in {0, 1, 2} :
               cs = [kind |-> "vectors", len |-> len, zeros |-> zpos]
 Next == UNCHANGED cs
